@@ -178,7 +178,7 @@ def make_inputs(tier, seed):
     corpus = C.corpus_texts()
     progs = P.programs_with_main(corpus)
     n = {"utf8": 60, "soup": 150, "structured": 150, "byte_mut": 150, "token_mut": 300, "semantic": 350, "core_semantic": 40} if tier == "quick" else \
-        {"utf8": 3000, "soup": 12000, "structured": 15000, "byte_mut": 15000, "token_mut": 40000, "semantic": 50000, "core_semantic": 3000}
+        {"utf8": 1000, "soup": 4000, "structured": 5000, "byte_mut": 5000, "token_mut": 12000, "semantic": 15000, "core_semantic": 1000}
     inputs = []
     for _ in range(n["utf8"]):
         inputs.append((random_utf8(rng, rng.pick([5, 40, 400, 4000, 60000]) if rng.chance(1, 8) else rng.range(1, 200)), "utf8"))
@@ -233,7 +233,7 @@ def run(tier, seed):
     viol.extend(pinned)
     # sanitizer sample: the same CLI under valgrind memcheck on inputs that compile normally (accepted or rejected);
     # an addressability error inside the compiler is a violation even when the process survives it
-    n_mc = 6 if tier == "quick" else 240
+    n_mc = 6 if tier == "quick" else 120
     rng = C.Rng(seed, 66)
     cand = [j for j, r in zip(jobs, results) if r[2] == "ok" and len(j[1]) < 6000]
     mc_jobs = [(k, j[1], j[2], os.path.join(work, f"mc{k}")) for k, j in enumerate(rng.sample(cand, min(n_mc, len(cand))))]
